@@ -234,7 +234,7 @@ def check_suspension(ctx, f, s_p, qmap, admissibility_only=False):
         ctx.ob(5, "K1", "containers are suspended only by the priority scheduler (the REST bridge merely decodes external decisions)", ok, fn_, c, detail=f"Suspend( in {fn_.mod.rel}::{fn_.qual}")
     qq = [q for q, m in qmap.items() if m == "QUERY"]
     qry = f"{s_p}.{qq[0]}" if qq else f"{s_p}.qry_jobs"
-    mine = [c for fn_, c in sites if fn_.node is f.node]
+    mine = [c for fn_, c in sites if same_fn(fn_, f)]
     for c in mine:
         fs = g.facts_at(c)
         if not admissibility_only:
